@@ -494,6 +494,26 @@ def _gen(n: "Node") -> FrozenSet:
             vt = norm.U(v)
             if t not in _names_of_text(vt)[0] and vt != t:
                 return frozenset([norm.mk_cmp("==", t, vt)])
+        if isinstance(v, ast.Call) and isinstance(v.func, ast.Name) and v.func.id == "next" and len(v.args) == 2 and not v.keywords \
+                and isinstance(a.targets[0], ast.Name) and isinstance(v.args[0], ast.GeneratorExp) and len(v.args[0].generators) == 1:
+            # x = next((k for k, val in D.items() if COND(k, val)), default):   x is default   or   COND(x, D[x])
+            ge = v.args[0]
+            gen = ge.generators[0]
+            dflt = v.args[1]
+            env = None
+            if isinstance(ge.elt, ast.Name) and not gen.is_async:
+                if isinstance(gen.target, ast.Tuple) and len(gen.target.elts) == 2 and all(isinstance(z, ast.Name) for z in gen.target.elts) \
+                        and isinstance(gen.iter, ast.Call) and isinstance(gen.iter.func, ast.Attribute) and gen.iter.func.attr == "items" and not gen.iter.args \
+                        and gen.target.elts[0].id == ge.elt.id and _is_term(gen.iter.func.value):
+                    env = {gen.target.elts[0].id: ast.Name(id=t, ctx=ast.Load()),
+                           gen.target.elts[1].id: ast.Subscript(value=gen.iter.func.value, slice=ast.Name(id=t, ctx=ast.Load()), ctx=ast.Load())}
+                elif isinstance(gen.target, ast.Name) and gen.target.id == ge.elt.id:
+                    env = {gen.target.id: ast.Name(id=t, ctx=ast.Load())}
+            if env is not None and gen.ifs and t not in norm.names_in(ge) and isinstance(dflt, ast.Constant) \
+                    and not any(isinstance(z, (ast.Call, ast.NamedExpr, ast.Lambda)) for c_ in gen.ifs for z in ast.walk(c_)):
+                cond = norm._mk("and", [norm.nnf(norm.Subst(env).visit(norm.clone(c_)), True, None) for c_ in gen.ifs])
+                isd = ("cmp", "is", t, "None") if dflt.value is None else norm.mk_cmp("==", t, norm.U(dflt))
+                return frozenset([norm._mk("or", [isd, cond])])
         if isinstance(v, (ast.Compare, ast.BoolOp)) or (isinstance(v, ast.UnaryOp) and isinstance(v.op, ast.Not)):
             # x = <condition>: x is a name for the condition until x or one of its operands is stored to
             #   (x -> C)  and  (not x -> not C), as two ordinary disjunction facts
